@@ -8,7 +8,7 @@ From Texel Require Import Chess.Types Chess.Position Chess.PositionSpec Chess.Po
   Chess.BitBoardProofs Chess.RayProofs Chess.SliderProofs Chess.AttackProofs Chess.PawnProofs Chess.PseudoProofs
   Chess.MakeSpecProofs gen.BitBoardTables
   RevGen.RevGen RevGen.RevFacts RevGen.RevAbs RevGen.RevRestore RevGen.RevValid RevGen.RevCand RevGen.RevRaw RevGen.RevLegal
-  RevGen.RevPawn RevGen.RevCastle RevGen.RevCons RevGen.RevNoDup RevGen.RevTheorems RevGen.RevConsPawn.
+  RevGen.RevPawn RevGen.RevCastle RevGen.RevCons RevGen.RevNoDup RevGen.RevTheorems RevGen.RevConsPawn RevGen.RevSlide.
 Import ListNotations.
 Local Open Scope N_scope.
 
@@ -498,4 +498,156 @@ Proof.
     rewrite !nthP_updN by (rewrite ?length_updN, Hl; lia); closed_ifs; pointwise Hl.
 Qed.
 
+Lemma at_updN_other (b : list piece) (s : square) (v : piece) x y :
+  (on_board x y = true -> sq_of x y <> s) -> at_ (updN s v b) x y = at_ b x y.
+Proof.
+  intro H. unfold at_. destruct (on_board x y) eqn:Hob; [|reflexivity]. specialize (H eq_refl).
+  change (nth (idx x y) ?l EMPTY) with (nth (idx x y) l EMPTY).
+  assert (E : idx x y = N.to_nat (sq_of x y)).
+  { unfold idx, sq_of. unfold on_board in Hob. rewrite !andb_true_iff, !Z.leb_le in Hob. lia. }
+  rewrite E. change (nth (N.to_nat (sq_of x y)) ?l EMPTY) with (nthP l (sq_of x y)).
+  apply nthP_updN_neq. intro E2. apply H. symmetry. exact E2.
+Qed.
+
+Lemma agree_rank (k0 kSq rSq cSq : square) (king rook : piece) (r : Z) (P : Z -> Prop) :
+  (forall x, (0 <= x <= 7)%Z -> P x -> sq_of x r <> k0 /\ sq_of x r <> kSq /\ sq_of x r <> rSq /\ sq_of x r <> cSq) ->
+  (forall x y, (0 <= x <= 7)%Z -> (0 <= y <= 7)%Z -> y <> r -> sq_of x y <> k0 /\ sq_of x y <> kSq /\ sq_of x y <> rSq /\ sq_of x y <> cSq) ->
+  forall x y, (y <> r \/ P x) -> at_ (prevBoardL k0 kSq rSq cSq king rook) x y = at_ sqsQ x y.
+Proof.
+  intros H1 H2 x y Hxy. unfold prevBoardL.
+  assert (Hne : on_board x y = true -> sq_of x y <> k0 /\ sq_of x y <> kSq /\ sq_of x y <> rSq /\ sq_of x y <> cSq).
+  { intro Hob. unfold on_board in Hob. rewrite !andb_true_iff, !Z.leb_le in Hob.
+    destruct (Z.eq_dec y r) as [->|Hy]; [apply H1; [lia | destruct Hxy as [Hxy|Hxy]; [contradiction | exact Hxy]] | apply H2; lia]. }
+  rewrite !at_updN_other by (intro Hob; apply (Hne Hob)). reflexivity.
+Qed.
+
+Ltac at_val Hl :=
+  match goal with |- at_ ?b ?x ?y = _ =>
+    let s := eval vm_compute in (sq_of x y) in
+    change (at_ b x y) with (nthP b s); unfold prevBoardL;
+    rewrite ?nthP_updN by (rewrite ?length_updN, Hl; lia); closed_ifs; try reflexivity; try assumption
+  end.
+
+Lemma castle_inC (k0 kSq rSq cSq : square) (kside : bool) (king rook : piece) (rb : N) (cm : N) (e : Z) :
+  Layout k0 kSq rSq cSq kside wm king rook rb -> f = k0 -> t = kSq ->
+  nthP sqsQ kSq = king -> nthP sqsQ rSq = rook -> nthP sqsQ k0 = EMPTY -> nthP sqsQ cSq = EMPTY ->
+  (kside = false -> nthP sqsQ (k0 - 3) = EMPTY) ->
+  attacked_by sqsQ (negb wm) (zf k0) (zr k0) = false -> attacked_by sqsQ (negb wm) (zf rSq) (zr rSq) = false ->
+  attacked_by sqsQ (negb wm) (zf kSq) (zr kSq) = false ->
+  N.testbit cm rb = true ->
+  In m (castle_moves (mkSpos (prevBoardL k0 kSq rSq cSq king rook) wm cm e)).
+Proof.
+  intros L Ef Et Hking Hrook He1 He2 He3 X1 X2 X3 Hrb. pose proof lenQ64 as Hl.
+  assert (Hm : m = mkMove k0 kSq EMPTY) by (rewrite (move_eta m), Hpr; fold f t; rewrite Ef, Et; reflexivity).
+  rewrite Hm. unfold castle_moves. cbv zeta. cbn [sp_board sp_white sp_castle]. unfold has_right. cbn [sp_castle].
+  destruct L as [L|[L|[L|L]]]; destruct L as (-> & -> & -> & -> & -> & Ew & -> & -> & ->); rewrite Ew in *; cbn [negb] in *.
+  - set (P := prevBoardL 4 6 5 7 WKING WROOK).
+    assert (A4 : at_ P 4 0 = WKING) by (unfold P; at_val Hl). assert (A5 : at_ P 5 0 = EMPTY) by (unfold P; at_val Hl).
+    assert (A6 : at_ P 6 0 = EMPTY) by (unfold P; at_val Hl). assert (A7 : at_ P 7 0 = WROOK) by (unfold P; at_val Hl).
+    assert (Q4 : at_ sqsQ 4 0 = EMPTY) by at_val Hl. assert (Q5 : at_ sqsQ 5 0 = WROOK) by at_val Hl.
+    assert (Q6 : at_ sqsQ 6 0 = WKING) by at_val Hl. assert (Q7 : at_ sqsQ 7 0 = EMPTY) by at_val Hl.
+    assert (Hag : forall x y, (y <> 0 \/ x <= 3)%Z -> at_ P x y = at_ sqsQ x y).
+    { apply (agree_rank 4 6 5 7 WKING WROOK 0%Z (fun x => (x <= 3)%Z)); intros; unfold sq_of; lia. }
+    destruct (back_WK P sqsQ Hag A4 A5 A6 A7 Q4 Q5 Q6 Q7 X1 X2 X3) as (S4 & S5 & S6).
+    rewrite A4, A5, A6, A7, S4, S5, S6, Hrb. cbn. left. reflexivity.
+  - set (P := prevBoardL 4 2 3 0 WKING WROOK). specialize (He3 eq_refl).
+    assert (A4 : at_ P 4 0 = WKING) by (unfold P; at_val Hl). assert (A3 : at_ P 3 0 = EMPTY) by (unfold P; at_val Hl).
+    assert (A2 : at_ P 2 0 = EMPTY) by (unfold P; at_val Hl). assert (A0 : at_ P 0 0 = WROOK) by (unfold P; at_val Hl).
+    assert (Q4 : at_ sqsQ 4 0 = EMPTY) by at_val Hl. assert (Q3 : at_ sqsQ 3 0 = WROOK) by at_val Hl.
+    assert (Q2 : at_ sqsQ 2 0 = WKING) by at_val Hl. assert (Q1 : at_ sqsQ 1 0 = EMPTY) by at_val Hl. assert (Q0 : at_ sqsQ 0 0 = EMPTY) by at_val Hl.
+    assert (Hag : forall x y, (y <> 0 \/ 5 <= x \/ x = 1)%Z -> at_ P x y = at_ sqsQ x y).
+    { apply (agree_rank 4 2 3 0 WKING WROOK 0%Z (fun x => (5 <= x \/ x = 1)%Z)); intros; unfold sq_of; lia. }
+    destruct (back_WQ P sqsQ Hag A4 A3 A2 A0 Q4 Q3 Q2 Q1 Q0 X1 X2 X3) as (S4 & S3 & S2).
+    assert (A1' : at_ P 1 0 = EMPTY) by (rewrite Hag by lia; exact Q1).
+    rewrite A4, A3, A2, A1', A0, S4, S3, S2, Hrb. cbn. destruct (_ && _); [right|]; left; reflexivity.
+  - set (P := prevBoardL 60 62 61 63 BKING BROOK).
+    assert (A4 : at_ P 4 7 = BKING) by (unfold P; at_val Hl). assert (A5 : at_ P 5 7 = EMPTY) by (unfold P; at_val Hl).
+    assert (A6 : at_ P 6 7 = EMPTY) by (unfold P; at_val Hl). assert (A7 : at_ P 7 7 = BROOK) by (unfold P; at_val Hl).
+    assert (Q4 : at_ sqsQ 4 7 = EMPTY) by at_val Hl. assert (Q5 : at_ sqsQ 5 7 = BROOK) by at_val Hl.
+    assert (Q6 : at_ sqsQ 6 7 = BKING) by at_val Hl. assert (Q7 : at_ sqsQ 7 7 = EMPTY) by at_val Hl.
+    assert (Hag : forall x y, (y <> 7 \/ x <= 3)%Z -> at_ P x y = at_ sqsQ x y).
+    { apply (agree_rank 60 62 61 63 BKING BROOK 7%Z (fun x => (x <= 3)%Z)); intros; unfold sq_of; lia. }
+    destruct (back_BK P sqsQ Hag A4 A5 A6 A7 Q4 Q5 Q6 Q7 X1 X2 X3) as (S4 & S5 & S6).
+    rewrite A4, A5, A6, A7, S4, S5, S6, Hrb. cbn. left. reflexivity.
+  - set (P := prevBoardL 60 58 59 56 BKING BROOK). specialize (He3 eq_refl).
+    assert (A4 : at_ P 4 7 = BKING) by (unfold P; at_val Hl). assert (A3 : at_ P 3 7 = EMPTY) by (unfold P; at_val Hl).
+    assert (A2 : at_ P 2 7 = EMPTY) by (unfold P; at_val Hl). assert (A0 : at_ P 0 7 = BROOK) by (unfold P; at_val Hl).
+    assert (Q4 : at_ sqsQ 4 7 = EMPTY) by at_val Hl. assert (Q3 : at_ sqsQ 3 7 = BROOK) by at_val Hl.
+    assert (Q2 : at_ sqsQ 2 7 = BKING) by at_val Hl. assert (Q1 : at_ sqsQ 1 7 = EMPTY) by at_val Hl. assert (Q0 : at_ sqsQ 0 7 = EMPTY) by at_val Hl.
+    assert (Hag : forall x y, (y <> 7 \/ 5 <= x \/ x = 1)%Z -> at_ P x y = at_ sqsQ x y).
+    { apply (agree_rank 60 58 59 56 BKING BROOK 7%Z (fun x => (5 <= x \/ x = 1)%Z)); intros; unfold sq_of; lia. }
+    destruct (back_BQ P sqsQ Hag A4 A3 A2 A0 Q4 Q3 Q2 Q1 Q0 X1 X2 X3) as (S4 & S3 & S2).
+    assert (A1' : at_ P 1 7 = EMPTY) by (rewrite Hag by lia; exact Q1).
+    rewrite A4, A3, A2, A1', A0, S4, S3, S2, Hrb. cbn. destruct (_ && _); [right|]; left; reflexivity.
+Qed.
+
+Lemma make_specC (k0 kSq rSq cSq : square) (kside : bool) (king rook : piece) (rb : N) (cm : N) (e : Z) :
+  Layout k0 kSq rSq cSq kside wm king rook rb -> f = k0 -> t = kSq ->
+  nthP sqsQ kSq = king -> nthP sqsQ rSq = rook -> nthP sqsQ k0 = EMPTY -> nthP sqsQ cSq = EMPTY ->
+  sp_board (make_spec (mkSpos (prevBoardL k0 kSq rSq cSq king rook) wm cm e) m) = sqsQ.
+Proof.
+  intros L Ef Et Hking Hrook He1 He2. pose proof lenQ64 as Hl.
+  assert (Hm : m = mkMove k0 kSq EMPTY) by (rewrite (move_eta m), Hpr; fold f t; rewrite Ef, Et; reflexivity).
+  assert (Hf : mfrom m < 64) by (fold f; rewrite Ef; destruct L as [L|[L|[L|L]]]; destruct L as (-> & _); lia).
+  assert (Ht : mto m < 64) by (fold t; rewrite Et; destruct L as [L|[L|[L|L]]]; destruct L as (_ & -> & _); lia).
+  rewrite (make_spec_board _ m Hf Ht). cbv zeta. cbn [sp_board sp_white]. rewrite Hm. cbn [mfrom mto mpromote].
+  change (nth (N.to_nat ?s) ?b EMPTY) with (nthP b s). unfold prevBoardL.
+  destruct L as [L|[L|[L|L]]]; destruct L as (-> & -> & -> & -> & -> & Ew & -> & -> & ->); rewrite Ew;
+    rewrite !nthP_updN by (rewrite ?length_updN, Hl; lia); closed_ifs;
+    repeat match goal with |- context [sq_of ?x ?y] => let v := eval vm_compute in (sq_of x y) in change (sq_of x y) with v end;
+    pointwise Hl.
+Qed.
+
+(** C15_consistent_statement for un-castlings *)
+Theorem consistent_castle :
+  Consistent zk prev /\ legal_spec (abs prev) m /\ abs (successor zk prev m) = abs q.
+Proof.
+  destruct concL as [k0 kSq rSq cSq kside king rook rb L Ef Et Hking Hrook He1 He2 He3 X1 X2 X3 Hc0 Hrb Hcm S].
+  destruct S as (Cp & Hs & Hsc).
+  assert (Ha : abs prev = mkSpos (prevBoardL k0 kSq rSq cSq king rook) wm (u_castleMask ui) (u_epSquare ui)).
+  { unfold scalars in Hsc. inversion Hsc. unfold abs. rewrite Hs. reflexivity. }
+  split; [exact Cp|]. split.
+  - unfold legal_spec. rewrite Ha. split.
+    + unfold pseudo_moves. apply in_app_iff. right.
+      apply (castle_inC k0 kSq rSq cSq kside king rook rb _ _ L Ef Et Hking Hrook He1 He2 He3 X1 X2 X3 Hrb).
+    + rewrite (make_specC k0 kSq rSq cSq kside king rook rb _ _ L Ef Et Hking Hrook He1 He2). cbn [sp_white].
+      destruct (WF_parts q Hwf) as (_ & _ & _ & _ & Hacc). destruct (accepted_parts _ Hacc) as (_ & _ & _ & _ & Hck & _).
+      cbn [abs sp_board sp_white] in Hck. exact Hck.
+  - assert (Hf : f < 64) by (rewrite Ef; destruct L as [L|[L|[L|L]]]; destruct L as (-> & _); lia).
+    pose proof (makeMove_abs zk prev m Cp Hf) as Hm.
+    destruct (makeA_C k0 kSq rSq cSq kside king rook rb (u_castleMask ui) (u_epSquare ui) L Ef Et Hking Hrook He1 He2) as (B1 & B2).
+    assert (B3 : sp_castle (makeA (mkSpos (prevBoardL k0 kSq rSq cSq king rook) wm (u_castleMask ui) (u_epSquare ui)) m) = castleMask q).
+    { unfold makeA. cbn [sp_castle]. fold f t. rewrite Ef, Et. exact Hcm. }
+    rewrite Ha in Hm.
+    pose proof (ep_remade zk q incl um Hin) as Hrem. fold m ui prev in Hrem. unfold successor in Hrem |- *.
+    destruct (fixup_frame zk (fst (makeMove zk prev m))) as (F1 & _ & F3 & _).
+    pose proof (squares_fixup zk (fst (makeMove zk prev m))) as F0.
+    revert Hm Hrem F1 F3 F0. generalize (fst (makeMove zk prev m)). intros X Hm Hrem F1 F3 F0.
+    unfold abs in Hm |- *. rewrite F0, F1, F3, Hrem.
+    pose proof (f_equal sp_board Hm) as H1. pose proof (f_equal sp_white Hm) as H2. pose proof (f_equal sp_castle Hm) as H3.
+    cbn [sp_board sp_white sp_castle] in H1, H2, H3. rewrite B1 in H1. rewrite B2 in H2. rewrite B3 in H3.
+    rewrite H1, H2, H3. reflexivity.
+Qed.
+
 End CastleCons.
+
+(** * all classes together: every reported un-move restores a position in which the move is legal by the FIDE
+    rules and from which it leads back to Q *)
+Theorem consistent_all zk (EKZ : emptyKeysZero zk) q incl um : WFrev zk q -> In um (genMoves zk q incl) ->
+  let prev := unMakeMove zk q (um_move um) (um_ui um) in
+  Consistent zk prev /\ legal_spec (abs prev) (um_move um) /\ abs (successor zk prev (um_move um)) = abs q.
+Proof.
+  intros Hrev Hin prev. pose proof Hrev as Hrev'. destruct Hrev' as [Cq Hwf _ _ _].
+  set (m := um_move um). set (mpT := nthP (squares q) (mto m)).
+  destruct (N.eq_dec (mpromote m) EMPTY) as [Hpr|Hpr].
+  2:{ apply (consistent_pawnlike zk q Hrev incl um Hin). right. exact Hpr. }
+  destruct (isPawnPiece mpT) eqn:Hp.
+  { apply (consistent_pawnlike zk q Hrev incl um Hin). left. split; [exact Hpr | exact Hp]. }
+  destruct (isKingPiece mpT) eqn:Hk.
+  - destruct (N.eq_dec (mto m) (mfrom m + 2)) as [T|T].
+    { apply (consistent_castle zk EKZ q Cq Hwf incl um Hin Hpr Hk). left. exact T. }
+    destruct (N.eq_dec (mto m + 2) (mfrom m)) as [T2|T2].
+    { apply (consistent_castle zk EKZ q Cq Hwf incl um Hin Hpr Hk). right. exact T2. }
+    apply (consistent_nonpawn zk q Cq Hwf incl um Hin Hpr Hp). intros _. split; assumption.
+  - apply (consistent_nonpawn zk q Cq Hwf incl um Hin Hpr Hp). fold m mpT. rewrite Hk. discriminate.
+Qed.
